@@ -106,8 +106,13 @@ def _tdc():
 
 def _check_one(res, tdc, scores, targets, desc, ref=None, where="tdc", extra=None):
     """One observed call; returns q or None."""
+    s_before, t_before = np.array(scores, copy=True), np.array(targets, copy=True)
     c = core.Call(tdc, scores, targets, desc=desc)
     res.count(where + "_calls")
+    # 'returned in input order' is judged against the arrays as the caller handed them over
+    if not (np.array_equal(np.asarray(scores), s_before) and np.array_equal(np.asarray(targets), t_before)):
+        res.violate("input_mutated", where, scores_before=s_before.tolist()[:20], scores_after=np.asarray(scores).tolist()[:20])
+    scores, targets = s_before, t_before
     wit = {"scores": np.asarray(scores).tolist()[:40], "targets": np.asarray(targets).tolist()[:40],
            "desc": desc, "dtype": str(np.asarray(scores).dtype), "tdtype": str(np.asarray(targets).dtype)}
     if extra:
